@@ -5,7 +5,7 @@
    channel counts, kernel size K, initial dilation, stride, time index are arbitrary; beta/gamma are arbitrary rationals.
    `true` as first argument of time_mask / kernel_size_opt / dilation_opt = comb anchored at the last tap (repaired code);
    maskbias = true is the repaired fold_bn forward (bias masked), false the pinned upstream commit. *)
-From Coq Require Import QArith ZArith List Bool Arith.
+From Coq Require Import QArith ZArith List Bool Arith Lia.
 Import ListNotations.
 Require Import Plinio.Model.Masks Plinio.Model.Conv Plinio.Model.PitNet Plinio.Proofs.Conv Plinio.Proofs.PitNet.
 Local Open Scope nat_scope.
@@ -74,7 +74,7 @@ Theorem C01_linear_export_eq : forall R r0 r1 radd rmul, @laws R r0 r1 radd rmul
 Proof. exact L_linear_export_eq. Qed.
 
 (* masked-out channels are exactly zero: after the fused BN (fold_bn off, all three layers) and, in the repaired code,
-   under fold_bn (Conv1d shown; Conv2d/Linear fold_bn variants: PARTIAL — covered by the correspondence run only) *)
+   under fold_bn (Conv1d here; all three layers in C01_dead_out_zero_fold below) *)
 Theorem C01_dead_out_zero : forall R r0 r1 radd rmul, @laws R r0 r1 radd rmul ->
   (forall maskbias dw w b bn cin K d s mout tm x co t, nth co mout false = false ->
      pit_conv1d_at r0 r1 radd rmul maskbias false dw w b bn cin K d s mout tm x co t = r0) /\
@@ -131,6 +131,82 @@ Theorem C01_export_sound_output : forall (S : Type) (eqS : S -> S -> Prop) (zero
   Forall2 eqS (nth i (eval_exp S zeroS addS net x) []) (nth i (eval_pit S zeroS addS net x) []).
 Proof. exact export_sound_output. Qed.
 
+(* ---- fold_bn = true for Conv2d / Linear (repaired code) *)
+Theorem C01_conv2d_export_eq_fold : forall R r0 r1 radd rmul, @laws R r0 r1 radd rmul ->
+  forall maskbias (w : w4 R) b bn cout cin kh kw d s ph pw mout min (x : nat -> Z -> Z -> R) co' h v,
+  shape4 R w cout cin -> bias_ok R b cout -> length mout = cout -> length min = cin ->
+  (forall ci, ci < cin -> nth ci min false = false -> forall a c, x ci a c = r0) ->
+  co' < count_true mout ->
+  pit_conv2d_at r0 r1 radd rmul maskbias true false w b bn cin kh kw d s ph pw mout x (nth co' (kept mout) 0) h v
+  = conv2d_at r0 radd rmul false (export_w4 false mout min w) (export_bias mout b) (count_true min) kh kw d s ph pw
+      (fun i => x (nth i (kept min) 0)) co' h v.
+Proof. exact L_conv2d_export_eq_fold. Qed.
+
+Theorem C01_conv2d_dw_export_eq_fold : forall R r0 r1 radd rmul, @laws R r0 r1 radd rmul ->
+  forall maskbias (w : w4 R) b bn c kh kw d s ph pw mout min (x : nat -> Z -> Z -> R) co' h v,
+  shape4 R w c 1 -> bias_ok R b c -> length mout = c -> co' < count_true mout ->
+  pit_conv2d_at r0 r1 radd rmul maskbias true true w b bn c kh kw d s ph pw mout x (nth co' (kept mout) 0) h v
+  = conv2d_at r0 radd rmul true (export_w4 true mout min w) (export_bias mout b) (count_true min) kh kw d s ph pw
+      (fun i => x (nth i (kept mout) 0)) co' h v.
+Proof. exact L_conv2d_export_eq_fold_dw. Qed.
+
+Theorem C01_linear_export_eq_fold : forall R r0 r1 radd rmul, @laws R r0 r1 radd rmul ->
+  forall maskbias (w : list (list R)) b bn cout cin mout min (x : nat -> R) co',
+  shape2 R w cout cin -> bias_ok R b cout -> length mout = cout -> length min = cin ->
+  (forall ci, ci < cin -> nth ci min false = false -> x ci = r0) ->
+  co' < count_true mout ->
+  pit_linear_at r0 r1 radd rmul maskbias true w b bn cin mout x (nth co' (kept mout) 0)
+  = linear_at r0 radd rmul (export_w2 mout min w) (export_bias mout b) (count_true min) (fun i => x (nth i (kept min) 0)) co'.
+Proof. exact L_linear_export_eq_fold. Qed.
+
+(* under fold_bn the repaired forward (bias masked) gives exactly zero on masked-out channels, all three layers *)
+Theorem C01_dead_out_zero_fold : forall R r0 r1 radd rmul, @laws R r0 r1 radd rmul ->
+  (forall dw (w : w3 R) b bn cin K d s mout tm x co t, length mout = length w -> bias_ok R b (length mout) -> nth co mout false = false ->
+     pit_conv1d_at r0 r1 radd rmul true true dw w b bn cin K d s mout tm x co t = r0) /\
+  (forall dw (w : w4 R) b bn cin kh kw d s ph pw mout x co h v, length mout = length w -> bias_ok R b (length mout) -> nth co mout false = false ->
+     pit_conv2d_at r0 r1 radd rmul true true dw w b bn cin kh kw d s ph pw mout x co h v = r0) /\
+  (forall (w : list (list R)) b bn cin mout x co, length mout = length w -> bias_ok R b (length mout) -> nth co mout false = false ->
+     pit_linear_at r0 r1 radd rmul true true w b bn cin mout x co = r0).
+Proof. exact L_dead_out_zero_fold. Qed.
+
+Theorem C01_zero_preserving_pool2d : forall k x, Forall zeros x -> Forall zeros (maxpool2d k x) /\ Forall zeros (sumpool2d k x).
+Proof. exact zero_preserving_maxsum_pool2d. Qed.
+
+(* ---- networks of CONCRETE layers.  A node is the network input, a searchable layer of Model/Conv.v (L1 = PITConv1d with
+   its causal pad, time mask tm and exported (K', sp); L2 = PITConv2d; L0 = PITLinear; each full or depthwise, fold_bn off or
+   on, with its binarized output mask m), a zero-preserving channel-wise op, flatten, residual add, channel concat.
+   ceval_pit evaluates every layer with the eval-mode forward of the code (clayer_pit = pit_conv1d_at / pit_conv2d_at /
+   pit_linear_at, repaired fold_bn), ceval_exp with the exported plain layer (clayer_exp = conv1d_at / conv2d_at / linear_at on
+   export_w3/w4/w2, export_bias, slice_bn, K', sp*d, pad (K'-1)*sp*d) fed with the exported tensors and the producers' alive
+   masks.  cwf = shapes of the parameter tensors, kept_lags K tm = export_lags K' sp (Masks.kept_taps_progression: every
+   real beta/gamma; frozen maskers: K' = K, sp = 1), depthwise layers and add operands share their masks, indices point backwards. *)
+Theorem C01_export_sound_concrete : forall R r0 r1 radd rmul, @laws R r0 r1 radd rmul ->
+  forall n (net : list (cnode R)) (x : list (SR R)), cwf R r0 n net -> length x = n ->
+  let al := calive_net R net in let P := ceval_pit R r0 r1 radd rmul net x in let E := ceval_exp R r0 radd rmul net x in
+  length al = length net /\ length P = length net /\ length E = length net /\
+  (forall i, i < length net -> Inv (SR R) (eqR R) (zeroR R r0) (nth i al []) (nth i P []) (nth i E [])).
+Proof. exact export_sound_concrete. Qed.
+
+Theorem C01_export_sound_concrete_output : forall R r0 r1 radd rmul, @laws R r0 r1 radd rmul ->
+  forall n (net : list (cnode R)) (x : list (SR R)), cwf R r0 n net -> length x = n ->
+  forall i, i < length net -> Forall (fun b => b = true) (nth i (calive_net R net) []) ->
+  Forall2 (eqR R) (nth i (ceval_exp R r0 radd rmul net x) []) (nth i (ceval_pit R r0 r1 radd rmul net x) []).
+Proof. exact export_sound_concrete_output. Qed.
+
+Example C01_concrete_net_wf :
+  let w : w3 Z := [[[1; 2]]; [[3; 4]]]%Z in
+  cwf Z 0%Z 1 [CInput Z 1; CLayer Z 0 (L1 Z false false w None None 1 2 1 1 [false; true] 1 1) [true; false];
+               CChan Z 1 (fun s => s); CLayer Z 2 (L0 Z true [[5; 6]]%Z (Some [7]%Z) None 2) [true]].
+Proof.
+  cbn. unfold cshape3, cshape2, cbias_ok, cbn_ok, respectsR, eqR. cbn.
+  repeat split; try reflexivity; try discriminate; try lia; auto.
+  - intros co H. destruct co as [|[|co]]; [reflexivity|reflexivity|lia].
+  - intros co ci H H'. destruct co as [|[|co]]; destruct ci as [|ci]; try lia; reflexivity.
+  - intros co H. destruct co as [|co]; [reflexivity|lia].
+  - intros bl E. inversion E. reflexivity.
+Qed.
+
+
 (* ---- the hypotheses are satisfiable by concrete non-trivial instances *)
 Example C01_laws_instances : laws 0%Z 1%Z Z.add Z.mul /\ laws (Qcanon.Q2Qc 0) (Qcanon.Q2Qc 1) Qcanon.Qcplus Qcanon.Qcmult.
 Proof. split; [exact laws_Z | exact laws_Qc]. Qed.
@@ -165,3 +241,10 @@ Print Assumptions C01_zero_preserving_pool1d.
 Print Assumptions C01_channelwise_commutes_with_slicing.
 Print Assumptions C01_export_sound.
 Print Assumptions C01_export_sound_output.
+Print Assumptions C01_conv2d_export_eq_fold.
+Print Assumptions C01_conv2d_dw_export_eq_fold.
+Print Assumptions C01_linear_export_eq_fold.
+Print Assumptions C01_dead_out_zero_fold.
+Print Assumptions C01_zero_preserving_pool2d.
+Print Assumptions C01_export_sound_concrete.
+Print Assumptions C01_export_sound_concrete_output.
